@@ -427,23 +427,25 @@ Definition conv_layout (l : list imattr) : Prop :=
 Record Inv (s : mstate) : Prop := {
   inv_wf : wf_topo (m_topo s);
   inv_conv : conv_layout (m_attrs s);
+  inv_len : 2 <= lenN (m_attrs s);
   inv_attrs : Forall (attr_ok (m_topo s)) (m_attrs s)
 }.
 
 Lemma Inv_put s id a a' :
   Inv s -> get_attr s id = Some a -> attr_ok (m_topo s) a' -> a_conv a' = a_conv a -> Inv (put_attr s id a').
 Proof.
-  intros [W C A] G K E. unfold get_attr in G. constructor; cbn [put_attr m_topo m_attrs].
+  intros [W C L A] G K E. unfold get_attr in G. constructor; cbn [put_attr m_topo m_attrs].
   - assumption.
   - intros j b Hb. destruct (N.eq_dec id j) as [<-|Hj].
     + rewrite (nth_set_same _ _ _ _ G) in Hb. injection Hb as <-. rewrite E. now apply C.
     + rewrite nth_set_other in Hb by assumption. now apply C.
+  - unfold lenN in *. now rewrite set_nthN_length.
   - apply Forall_forall. intros b Hb. apply In_set_nthN in Hb. destruct Hb as [->|Hb]; [assumption|].
     rewrite Forall_forall in A. auto.
 Qed.
 
 Lemma Inv_get s id a : Inv s -> get_attr s id = Some a -> attr_ok (m_topo s) a.
-Proof. intros [_ _ A] G. apply nth_errN_In in G. rewrite Forall_forall in A. auto. Qed.
+Proof. intros [_ _ _ A] G. apply nth_errN_In in G. rewrite Forall_forall in A. auto. Qed.
 
 (* the refreshed content of an attribute: what every query looks at *)
 Definition tgs_of (s : mstate) (id : N) : list imtg :=
@@ -551,6 +553,18 @@ Qed.
 (* ================================================================== *)
 (* G. set_value                                                        *)
 
+Lemma mark_alloc_proj b id s :
+  m_topo (mark_alloc b id s) = m_topo s /\ m_attrs (mark_alloc b id s) = m_attrs s.
+Proof. unfold mark_alloc. destruct b; auto. Qed.
+Lemma get_attr_mark b id s j : get_attr (mark_alloc b id s) j = get_attr s j.
+Proof. unfold get_attr. now rewrite (proj2 (mark_alloc_proj b id s)). Qed.
+Lemma tgs_of_mark b id s j : tgs_of (mark_alloc b id s) j = tgs_of s j.
+Proof. unfold tgs_of. rewrite get_attr_mark. now rewrite (proj1 (mark_alloc_proj b id s)). Qed.
+Lemma Inv_mark b id s : Inv s -> Inv (mark_alloc b id s).
+Proof.
+  intros [W C L A]. destruct (mark_alloc_proj b id s) as [E1 E2]. constructor; rewrite ?E1, ?E2; assumption.
+Qed.
+
 Definition set_f (need : bool) (il : option iloc) (v : N) (g : imtg) : imtg :=
   match il with
   | Some q => if need then Imtg (g_type g) (g_gp g) (g_os g) (upsert_init q v (g_inits g)) (g_val g)
@@ -568,7 +582,7 @@ Lemma set_core_unfold s id ty gp os il v a :
   set_core true s id ty gp os il v =
   let a1 := cur (m_topo s) a in
   let r := upsert_tg ty gp os (set_f (need_init a) il v) (a_tgs a1) in
-  (put_attr s id (Imattr (a_name a1) (a_flags a1) (a_conv a1) (if snd r then false else a_valid a1) (fst r)), Ok tt).
+  (mark_alloc (snd r) id (put_attr s id (Imattr (a_name a1) (a_flags a1) (a_conv a1) (if snd r then false else a_valid a1) (fst r))), Ok tt).
 Proof.
   intros G N C. unfold set_core. rewrite G, N, C. cbn [andb]. cbn zeta.
   replace (if negb (a_valid a) then refresh_attr (m_topo s) a else a) with (cur (m_topo s) a)
@@ -684,6 +698,8 @@ Lemma set_core_props s id o il v :
   snd (set_core true s id (o_type o) (o_gp o) (o_os o) il v) = Ok tt /\
   Inv s' /\ m_topo s' = m_topo s /\
   (forall id', id' <> id -> get_attr s' id' = get_attr s id') /\
+  (forall a, get_attr s id = Some a -> exists a2, get_attr s' id = Some a2 /\ a_name a2 = a_name a /\
+     a_flags a2 = a_flags a /\ a_conv a2 = a_conv a) /\
   (forall a, get_attr s id = Some a ->
      map ok_tg (tgs_of s' id) =
      map ok_tg (fst (upsert_tg (o_type o) (o_gp o) (o_os o) (set_f (need_init a) il v) (tgs_of s id)))).
@@ -727,10 +743,12 @@ Proof.
   { unfold attr_ok. rewrite Nd2. unfold a2. cbn [a_tgs a_valid a_conv].
     split; [exact TG|]. split; [exact ND|]. split; [intros _; exact ST|].
     rewrite K6, C. discriminate. }
-  split; [reflexivity|]. split; [apply (Inv_put s id a); auto; cbn [a_conv a2]; exact K6|].
-  split; [reflexivity|]. split.
-  - intros id' Hid. unfold get_attr. cbn [put_attr m_attrs]. apply nth_set_other. congruence.
-  - intros a' G'. rewrite G in G'. injection G' as <-.
+  split; [reflexivity|]. split; [apply Inv_mark; apply (Inv_put s id a); auto; cbn [a_conv a2]; exact K6|].
+  split; [apply (mark_alloc_proj (snd r) id (put_attr s id a2))|]. split; [|split].
+  - intros id' Hid. rewrite get_attr_mark. unfold get_attr. cbn [put_attr m_attrs]. apply nth_set_other. congruence.
+  - intros a' G'. rewrite G in G'. injection G' as <-. exists a2. split; [|unfold a2; cbn [a_name a_flags a_conv]; auto].
+    rewrite get_attr_mark. unfold get_attr in *. cbn [put_attr m_attrs]. apply (nth_set_same _ _ _ _ G).
+  - intros a' G'. rewrite G in G'. injection G' as <-. rewrite tgs_of_mark.
     unfold tgs_of at 1. unfold get_attr in *. cbn [put_attr m_attrs m_topo].
     rewrite (nth_set_same _ _ _ _ G).
     unfold tgs_of, get_attr. rewrite G. fold a1. fold f. fold r.
@@ -739,4 +757,387 @@ Proof.
       rewrite (refresh_stable_list _ _ _ TG ST). rewrite map_map.
       apply map_ext. intros g. unfold ok_tg. cbn [g_type g_gp g_os g_val g_inits]. rewrite map_map. reflexivity.
     + rewrite K3. reflexivity.
+Qed.
+
+(* ================================================================== *)
+(* H. what get_value returns after set_value                           *)
+
+Lemma match_iloc_refl q : match_iloc q q = true.
+Proof. destruct q; cbn [match_iloc]; [apply bs_subset_refl|now rewrite !N.eqb_refl]. Qed.
+
+Lemma upsert_init_find_same q v is : exists i, find_init (upsert_init q v is) q = Some i /\ i_val i = v.
+Proof.
+  unfold find_init. induction is as [|i r IH]; cbn [upsert_init find].
+  - cbn [i_loc]. rewrite match_iloc_refl. eexists. split; reflexivity.
+  - destruct (match_iloc q (i_loc i)) eqn:E; cbn [find i_loc].
+    + rewrite E. eexists. split; reflexivity.
+    + rewrite E. exact IH.
+Qed.
+
+Lemma get_value_snd_ext s s' id tgt init flags :
+  m_topo s' = m_topo s -> get_attr s' id = get_attr s id ->
+  snd (get_value s' id tgt init flags) = snd (get_value s id tgt init flags).
+Proof.
+  intros T G. unfold get_value. rewrite T, G. break_match; reflexivity.
+Qed.
+
+Lemma stored_target_lemmas s id a :
+  Inv s -> get_attr s id = Some a ->
+  Forall (tg_ok (m_topo s) (need_init a)) (tgs_of s id) /\ Forall (stable (m_topo s) (need_init a)) (tgs_of s id)
+  /\ NoDup (map tkey (tgs_of s id)).
+Proof.
+  intros I G. pose proof (cur_ok _ _ (Inv_get s id a I G)) as [[K1 [K1' _]] [K2 [_ [_ [K5 _]]]]].
+  unfold tgs_of. rewrite G. replace (need_init (cur (m_topo s) a)) with (need_init a) in K1
+    by (unfold need_init; now rewrite K5). auto.
+Qed.
+
+Definition public_il (l : option location) : option (option iloc) :=
+  match l with None => Some None | Some l => match to_internal l with Some q => Some (Some q) | None => None end end.
+
+Lemma set_value_core s id o init v il :
+  public_il init = Some il ->
+  set_value s id (Some o) init 0 v = set_core true s id (o_type o) (o_gp o) (o_os o) il v.
+Proof.
+  unfold public_il, set_value. cbn [N.eqb negb]. destruct init as [l|].
+  - destruct (to_internal l); intros H; [injection H as <-; reflexivity|discriminate].
+  - intros H. injection H as <-. reflexivity.
+Qed.
+
+(* the value just stored is what the same query returns *)
+Lemma set_then_get s id o init il v :
+  Inv s -> public_il init = Some il -> set_args_ok s id o il ->
+  let s' := fst (set_value s id (Some o) init 0 v) in
+  snd (set_value s id (Some o) init 0 v) = Ok tt /\ Inv s' /\
+  snd (get_value s' id (Some o) init 0) = Ok v.
+Proof.
+  intros I P A. cbn zeta. rewrite (set_value_core s id o init v il P).
+  pose proof (set_core_props s id o il v I A) as [R [I' [T' [_ [HA HT]]]]].
+  destruct A as [Ho [Sil [a [G [C N]]]]].
+  destruct (HA a G) as [a2 [G2 [_ [F2 C2]]]]. specialize (HT a G).
+  split; [assumption|]. split; [assumption|].
+  rewrite (get_value_snd _ id a2 o init G2) by congruence.
+  replace (need_init a2) with (need_init a) by (unfold need_init; now rewrite F2).
+  rewrite <- get_in_ok, HT, get_in_ok.
+  unfold get_in, find_target. rewrite upsert_find_same.
+  - set (g0 := match find _ _ with Some g => g | None => _ end).
+    unfold set_f. destruct (need_init a) eqn:Nd.
+    + destruct il as [q|]; [|discriminate N].
+      unfold find_init_loc. destruct init as [l|]; [|discriminate P].
+      unfold public_il in P. destruct (to_internal l) as [q'|]; [|discriminate P]. injection P as ->.
+      cbn [g_inits].
+      destruct (upsert_init_find_same q v (g_inits g0)) as [i [-> <-]]. reflexivity.
+    + destruct il; reflexivity.
+  - intros g. unfold tg_match. destruct (set_f_fields (need_init a) il v g) as [-> [-> ->]]. reflexivity.
+  - unfold tg_match. destruct (set_f_fields (need_init a) il v (Imtg (o_type o) (o_gp o) (o_os o) [] 0)) as [-> [-> ->]].
+    cbn [g_type g_gp g_os]. rewrite !N.eqb_refl.
+    assert (Hn : o_gp o =? MEMATTR_GP_NONE = false) by (apply N.eqb_neq; apply (inv_wf s I); assumption).
+    rewrite Hn. reflexivity.
+Qed.
+
+(* frame: other attributes, and other targets of the same attribute, are untouched *)
+Lemma set_frame_attr s id o init il v id' tgt' init' flags' :
+  Inv s -> public_il init = Some il -> set_args_ok s id o il -> id' <> id ->
+  let s' := fst (set_value s id (Some o) init 0 v) in
+  snd (get_value s' id' tgt' init' flags') = snd (get_value s id' tgt' init' flags').
+Proof.
+  intros I P A Hid. cbn zeta. rewrite (set_value_core s id o init v il P).
+  pose proof (set_core_props s id o il v I A) as [_ [_ [T' [Hother _]]]].
+  apply get_value_snd_ext; auto.
+Qed.
+
+Lemma set_frame_target s id o init il v o' init' :
+  Inv s -> public_il init = Some il -> set_args_ok s id o il ->
+  In o' (t_objs (m_topo s)) -> o' <> o ->
+  let s' := fst (set_value s id (Some o) init 0 v) in
+  snd (get_value s' id (Some o') init' 0) = snd (get_value s id (Some o') init' 0).
+Proof.
+  intros I P A Ho' Hne. cbn zeta. rewrite (set_value_core s id o init v il P).
+  pose proof (set_core_props s id o il v I A) as [_ [_ [_ [_ [HA HT]]]]].
+  destruct A as [Ho [Sil [a [G [C N]]]]].
+  destruct (HA a G) as [a2 [G2 [_ [F2 C2]]]]. specialize (HT a G).
+  rewrite (get_value_snd _ id a2 o' init' G2) by congruence.
+  rewrite (get_value_snd _ id a o' init' G C).
+  replace (need_init a2) with (need_init a) by (unfold need_init; now rewrite F2).
+  rewrite <- get_in_ok, HT, get_in_ok.
+  destruct (stored_target_lemmas s id a I G) as [TG [ST _]].
+  pose proof (inv_wf s I) as W.
+  unfold get_in, find_target. rewrite upsert_find_other; [reflexivity| | |].
+  - intros g. unfold tg_match. destruct (set_f_fields (need_init a) il v g) as [-> [-> ->]]. reflexivity.
+  - intros g Hg M. rewrite Forall_forall in TG, ST.
+    rewrite (tg_match_key _ _ g o W Ho (TG g Hg) (ST g Hg)) in M.
+    rewrite (tg_match_key _ _ g o' W Ho' (TG g Hg) (ST g Hg)).
+    unfold key_eqb in *. apply andb_true_iff in M. destruct M as [M1 M2]. apply N.eqb_eq in M1, M2.
+    destruct (N.eqb_spec (g_type g) (o_type o')) as [E1|]; [|reflexivity].
+    destruct (N.eqb_spec (g_gp g) (o_gp o')) as [E2|]; [|reflexivity].
+    exfalso. apply Hne. apply (NoDup_map_inj o_gp (t_objs (m_topo s))); [apply W|assumption|assumption|congruence].
+  - unfold tg_match. destruct (set_f_fields (need_init a) il v (Imtg (o_type o) (o_gp o) (o_os o) [] 0)) as [-> [-> ->]].
+    cbn [g_type g_gp g_os].
+    destruct (N.eqb_spec (o_type o') (o_type o)) as [E1|]; [|reflexivity]. cbn [andb].
+    assert (Hg : o_gp o' <> o_gp o).
+    { intros E. apply Hne. apply (NoDup_map_inj o_gp (t_objs (m_topo s))); [apply W|assumption|assumption|congruence]. }
+    apply N.eqb_neq in Hg. rewrite Hg, andb_false_r. cbn [orb].
+    destruct (N.eqb_spec (o_os o') MEMATTR_OS_NONE) as [E3|E3]; [reflexivity|]. cbn [negb andb].
+    apply N.eqb_neq. intros E. apply Hne. apply (wf_os_unique _ W); assumption.
+Qed.
+
+(* cpuset initiators: pairwise disjoint stored sets *)
+Definition loc_disjoint (a b : iloc) : Prop :=
+  match a, b with ICpu x, ICpu y => bs_disjoint x y | _, _ => True end.
+Definition pd (is : list imi) : Prop := ForallOrdPairs (fun i j => loc_disjoint (i_loc i) (i_loc j)) is.
+(* the set's initiator is included in a stored one, or disjoint from all of them *)
+Definition compat (is : list imi) (q : iloc) : Prop :=
+  find_init is q <> None \/ Forall (fun i => loc_disjoint (i_loc i) q) is.
+
+Lemma subset_not_disjoint c' x y :
+  bs_is_empty c' = false -> bs_subset c' x = true -> bs_subset c' y = true -> bs_disjoint x y -> False.
+Proof.
+  intros E X Y D. apply bs_nonempty_mem in E. destruct E as [i Hi].
+  rewrite bs_subset_spec in X, Y. exact (D i (X i Hi) (Y i Hi)).
+Qed.
+
+Lemma upsert_init_included c c' v is :
+  pd is -> compat is (ICpu c) -> bs_is_empty c' = false -> bs_subset c' c = true ->
+  exists i, find_init (upsert_init (ICpu c) v is) (ICpu c') = Some i /\ i_val i = v.
+Proof.
+  intros P C E S. unfold find_init. induction is as [|i r IH]; cbn [upsert_init find].
+  - cbn [i_loc match_iloc]. rewrite S. eexists. split; reflexivity.
+  - inversion P as [|? ? P1 P2]; subst.
+    destruct (match_iloc (ICpu c) (i_loc i)) eqn:M; cbn [find i_loc].
+    + destruct (i_loc i) as [x|]; [|discriminate]. cbn [match_iloc] in *.
+      rewrite (bs_subset_trans _ _ _ S M). eexists. split; reflexivity.
+    + destruct (match_iloc (ICpu c') (i_loc i)) eqn:M'.
+      * exfalso. destruct (i_loc i) as [x|] eqn:Li; [|discriminate M']. cbn [match_iloc] in M, M'.
+        destruct C as [C|C].
+        -- unfold find_init in C. cbn [find] in C. rewrite Li in C.
+           change (match_iloc (ICpu c) (ICpu x)) with (bs_subset c x) in C. rewrite M in C.
+           match type of C with context [find ?p r] => destruct (find p r) as [j|] eqn:F end; [|now contradiction C].
+           apply find_some in F. destruct F as [Hj Mj].
+           rewrite Forall_forall in P1. specialize (P1 j Hj). cbn beta in P1. try rewrite Li in P1.
+           destruct (i_loc j) as [y|]; [|discriminate Mj]. cbn [match_iloc loc_disjoint] in *.
+           exact (subset_not_disjoint c' x y E M' (bs_subset_trans _ _ _ S Mj) P1).
+        -- inversion C as [|? ? C1 C2]; subst. cbn beta in C1. try rewrite Li in C1. cbn [loc_disjoint] in C1.
+           exact (subset_not_disjoint c' x c E M' S C1).
+      * apply IH; [assumption|].
+        destruct C as [C|C].
+        -- left. unfold find_init in *. cbn [find] in C. now rewrite M in C.
+        -- right. now inversion C.
+Qed.
+
+Lemma set_then_get_included s id o c c' v :
+  Inv s -> set_args_ok s id o (Some (ICpu c)) ->
+  (forall a, get_attr s id = Some a -> need_init a = true) ->
+  (forall g, find_target (tgs_of s id) (o_type o) (o_gp o) (o_os o) = Some g ->
+             pd (g_inits g) /\ compat (g_inits g) (ICpu c)) ->
+  bs_is_empty c' = false -> bs_subset c' c = true ->
+  let s' := fst (set_value s id (Some o) (Some (LCpu (Some c))) 0 v) in
+  snd (get_value s' id (Some o) (Some (LCpu (Some c'))) 0) = Ok v.
+Proof.
+  intros I A Hneed Hpd E S. cbn zeta.
+  assert (Ec : bs_is_empty c = false).
+  { destruct A as [_ [[_ Ec] _]]. exact Ec. }
+  assert (P : public_il (Some (LCpu (Some c))) = Some (Some (ICpu c))).
+  { unfold public_il, to_internal. now rewrite Ec. }
+  rewrite (set_value_core s id o _ v _ P).
+  pose proof (set_core_props s id o _ v I A) as [_ [_ [_ [_ [HA HT]]]]].
+  destruct A as [Ho [Sil [a [G [C N]]]]].
+  destruct (HA a G) as [a2 [G2 [_ [F2 C2]]]]. specialize (HT a G).
+  rewrite (get_value_snd _ id a2 o _ G2) by congruence.
+  replace (need_init a2) with (need_init a) by (unfold need_init; now rewrite F2).
+  rewrite <- get_in_ok, HT, get_in_ok. rewrite (Hneed a G).
+  unfold get_in, find_target. rewrite upsert_find_same.
+  - unfold find_target in Hpd. destruct (find _ (tgs_of s id)) as [g|] eqn:F.
+    + destruct (Hpd g eq_refl) as [P1 P2]. unfold set_f. cbn [g_inits find_init_loc to_internal]. rewrite E.
+      destruct (upsert_init_included c c' v (g_inits g) P1 P2 E S) as [i [-> <-]]. reflexivity.
+    + unfold set_f. cbn [g_inits find_init_loc to_internal upsert_init]. rewrite E.
+      unfold find_init. cbn [find i_loc match_iloc]. rewrite S. reflexivity.
+  - intros g. unfold tg_match. destruct (set_f_fields true (Some (ICpu c)) v g) as [-> [-> ->]]. reflexivity.
+  - unfold tg_match, set_f. cbn [g_type g_gp g_os]. rewrite !N.eqb_refl.
+    assert (Hn : o_gp o =? MEMATTR_GP_NONE = false) by (apply N.eqb_neq; apply (inv_wf s I); assumption).
+    rewrite Hn. reflexivity.
+Qed.
+
+(* ================================================================== *)
+(* I. enumerations and best-of queries as functions of the content     *)
+
+Definition entries (need : bool) (tgs : list imtg) (init : option location) (null_all : bool) : list (N * N) :=
+  filter_map (fun g =>
+    if need then
+      match init with
+      | None => if null_all then Some (g_gp g, 0) else None
+      | Some _ => match find_init_loc g init with Some i => Some (g_gp g, i_val i) | None => None end
+      end
+    else Some (g_gp g, g_val g)) tgs.
+
+Lemma need_init_cur t a : need_init (cur t a) = need_init a.
+Proof. unfold cur. destruct (a_valid a); reflexivity. Qed.
+
+Lemma get_targets_snd s id a init max tnull :
+  get_attr s id = Some a -> a_conv a = false -> (max = 0 \/ tnull = false) ->
+  snd (get_targets s id init 0 max tnull) =
+  Ok (lenN (entries (need_init a) (tgs_of s id) init true), firstnN max (entries (need_init a) (tgs_of s id) init true)).
+Proof.
+  intros G C M. unfold get_targets, tgs_of. rewrite G, C. cbn [N.eqb negb].
+  assert (X : negb (max =? 0) && tnull = false) by (destruct M as [->| ->]; [reflexivity|apply andb_false_r]).
+  rewrite X. cbn [snd]. unfold target_entries, entries. rewrite need_init_cur. reflexivity.
+Qed.
+
+Lemma entries_in need tgs init gp v :
+  In (gp, v) (entries need tgs init true) <->
+  exists g, In g tgs /\ g_gp g = gp /\
+    ((need = false /\ v = g_val g) \/ (need = true /\ init = None /\ v = 0) \/
+     (need = true /\ init <> None /\ exists i, find_init_loc g init = Some i /\ v = i_val i)).
+Proof.
+  unfold entries. rewrite in_filter_map. split.
+  - intros [g [Hg E]]. exists g. split; [assumption|]. destruct need.
+    + destruct init as [l|].
+      * destruct (find_init_loc g (Some l)) as [i|] eqn:F; [|discriminate]. injection E as <- <-.
+        split; [reflexivity|]. right. right. split; [reflexivity|]. split; [discriminate|]. eauto.
+      * injection E as <- <-. split; [reflexivity|]. right. left. auto.
+    + injection E as <- <-. split; [reflexivity|]. left. auto.
+  - intros [g [Hg [<- H]]]. exists g. split; [assumption|].
+    destruct H as [[-> ->]|[[-> [-> ->]]|[-> [Hi [j [F ->]]]]]]; try reflexivity.
+    destruct init; [|congruence]. now rewrite F.
+Qed.
+
+Lemma NoDup_map_coarser {A B C} (f : A -> B) (g : A -> C) l :
+  (forall x y, In x l -> In y l -> g x = g y -> f x = f y) -> NoDup (map f l) -> NoDup (map g l).
+Proof.
+  induction l as [|x l IH]; intros H N; [constructor|].
+  cbn [map] in *. inversion N as [|? ? N1 N2]; subst. constructor.
+  - intros Hin. apply in_map_iff in Hin. destruct Hin as [y [E Hy]].
+    apply N1. rewrite <- (H y x (or_intror Hy) (or_introl eq_refl) E). now apply in_map.
+  - apply IH; [|assumption]. intros a b Ha Hb. apply H; now right.
+Qed.
+
+Lemma stable_gp_nodup t need l :
+  wf_topo t -> Forall (stable t need) l -> NoDup (map tkey l) -> NoDup (map g_gp l).
+Proof.
+  intros W S. apply NoDup_map_coarser. intros x y Hx Hy E. rewrite Forall_forall in S.
+  destruct (S x Hx) as [[ox Ox] _], (S y Hy) as [[oy Oy] _].
+  apply obj_by_type_gp_some in Ox, Oy. destruct Ox as [I1 [T1 G1]], Oy as [I2 [T2 G2]].
+  assert (ox = oy) by (apply (NoDup_map_inj o_gp (t_objs t)); [apply W|assumption|assumption|congruence]).
+  subst oy. unfold tkey. congruence.
+Qed.
+
+Lemma entries_nodup s id a init b :
+  Inv s -> get_attr s id = Some a -> NoDup (map fst (entries (need_init a) (tgs_of s id) init b)).
+Proof.
+  intros I G. destruct (stored_target_lemmas s id a I G) as [_ [ST ND]].
+  pose proof (stable_gp_nodup _ _ _ (inv_wf s I) ST ND) as N.
+  unfold entries. apply (NoDup_filter_map_key g_gp fst) with (2 := N).
+  intros g y _ E. destruct (need_init a).
+  - destruct init.
+    + destruct (find_init_loc g (Some l)); [injection E as <-; reflexivity|discriminate].
+    + destruct b; [injection E as <-; reflexivity|discriminate].
+  - injection E as <-. reflexivity.
+Qed.
+
+Lemma get_initiators_snd s id a o max inull :
+  get_attr s id = Some a -> need_init a = true -> (max = 0 \/ inull = false) ->
+  snd (get_initiators s id (Some o) 0 max inull) =
+  match find_target (tgs_of s id) (o_type o) (o_gp o) (o_os o) with
+  | None => Err EINVAL
+  | Some g => if forallb i_ok (firstnN max (g_inits g))
+              then Ok (lenN (g_inits g), map (fun i => (i_loc i, i_val i)) (firstnN max (g_inits g)))
+              else Err EUB
+  end.
+Proof.
+  intros G Nd M. unfold get_initiators, tgs_of. rewrite G, Nd. cbn [N.eqb negb].
+  assert (X : negb (max =? 0) && inull = false) by (destruct M as [->| ->]; [reflexivity|apply andb_false_r]).
+  rewrite X. destruct (find_target _ _ _ _); [|reflexivity]. destruct (forallb _ _); reflexivity.
+Qed.
+
+Lemma get_best_target_snd s id a init :
+  get_attr s id = Some a -> a_conv a = false ->
+  snd (get_best_target s id init 0) =
+  match best_of (higher a) (entries (need_init a) (tgs_of s id) init false) with
+  | Some b => Ok b | None => Err ENOENT end.
+Proof.
+  intros G C. unfold get_best_target, tgs_of. rewrite G, C. cbn [N.eqb negb].
+  unfold target_entries, entries. rewrite need_init_cur. destruct (best_of _ _); reflexivity.
+Qed.
+
+Lemma get_best_initiator_snd s id a o :
+  get_attr s id = Some a -> need_init a = true ->
+  snd (get_best_initiator s id (Some o) 0) =
+  match find_target (tgs_of s id) (o_type o) (o_gp o) (o_os o) with
+  | None => Err EINVAL
+  | Some g => match best_of (higher a) (map (fun i => (i, i_val i)) (g_inits g)) with
+              | None => Err ENOENT
+              | Some (i, v) => if i_ok i then Ok (i_loc i, v) else Err EUB
+              end
+  end.
+Proof.
+  intros G Nd. unfold get_best_initiator, tgs_of. rewrite G, Nd. cbn [N.eqb negb].
+  destruct (find_target _ _ _ _); [|reflexivity]. destruct (best_of _ _) as [[i1 v1]|]; [|reflexivity].
+  destruct (i_ok i1); reflexivity.
+Qed.
+
+(* best target: ENOENT iff no candidate, else a candidate with an optimal value *)
+Lemma best_target_optimal_lemma s id a init :
+  get_attr s id = Some a -> a_conv a = false ->
+  let cands := entries (need_init a) (tgs_of s id) init false in
+  (snd (get_best_target s id init 0) = Err ENOENT <-> cands = []) /\
+  (forall gp v, snd (get_best_target s id init 0) = Ok (gp, v) ->
+     In (gp, v) cands /\ forall gp' v', In (gp', v') cands -> better (higher a) v v').
+Proof.
+  intros G C. cbn zeta. rewrite (get_best_target_snd s id a init G C).
+  destruct (best_of (higher a) _) as [[gp0 v0]|] eqn:B.
+  - split.
+    + split; [discriminate|]. intros E. apply (best_of_none (higher a)) in E. congruence.
+    + intros gp v H. injection H as <- <-. now apply best_of_some.
+  - split.
+    + split; [intros _; now apply (best_of_none (higher a))|reflexivity].
+    + intros; discriminate.
+Qed.
+
+Lemma best_initiator_optimal_lemma s id a o g :
+  get_attr s id = Some a -> need_init a = true ->
+  find_target (tgs_of s id) (o_type o) (o_gp o) (o_os o) = Some g ->
+  (snd (get_best_initiator s id (Some o) 0) = Err ENOENT <-> g_inits g = []) /\
+  (forall l v, snd (get_best_initiator s id (Some o) 0) = Ok (l, v) ->
+     (exists i, In i (g_inits g) /\ i_loc i = l /\ i_val i = v) /\
+     forall i', In i' (g_inits g) -> better (higher a) v (i_val i')).
+Proof.
+  intros G Nd F. rewrite (get_best_initiator_snd s id a o G Nd), F.
+  destruct (best_of (higher a) _) as [[i0 v0]|] eqn:B.
+  - apply best_of_some in B. destruct B as [B1 B2].
+    apply in_map_iff in B1. destruct B1 as [i1 [E1 H1]]. injection E1 as -> <-.
+    split.
+    + split; [destruct (i_ok i0); discriminate|]. intros E. rewrite E in H1. destruct H1.
+    + intros l v H. destruct (i_ok i0); [|discriminate]. injection H as <- <-.
+      split; [exists i0; auto|]. intros i' Hi'. apply (B2 i' (i_val i')). apply in_map_iff. eauto.
+  - apply best_of_none in B. split.
+    + split; [intros _|reflexivity]. destruct (g_inits g); [reflexivity|discriminate].
+    + intros; discriminate.
+Qed.
+
+(* ================================================================== *)
+(* J. convenience attributes                                           *)
+
+Lemma conv_attr_get s id a o init :
+  get_attr s id = Some a -> a_conv a = true -> get_value s id (Some o) init 0 = (s, conv_value id o).
+Proof. intros G C. unfold get_value. rewrite G, C. reflexivity. Qed.
+
+Lemma conv_attr_readonly s id a tgt init flags v :
+  get_attr s id = Some a -> a_conv a = true -> set_value s id tgt init flags v = (s, Err EINVAL).
+Proof.
+  intros G C. unfold set_value. destruct tgt as [o|]; [|reflexivity].
+  destruct (negb (flags =? 0)); [reflexivity|].
+  assert (X : forall il, set_core true s id (o_type o) (o_gp o) (o_os o) il v = (s, Err EINVAL)).
+  { intros il. unfold set_core. rewrite G, C. destruct (need_init a && _); reflexivity. }
+  destruct init as [l|]; [|apply X]. destruct (to_internal l); [apply X|reflexivity].
+Qed.
+
+Lemma conv_ids s id : Inv s -> id < 2 -> exists a, get_attr s id = Some a /\ a_conv a = true.
+Proof.
+  intros I H. unfold get_attr. destruct (nth_errN (m_attrs s) id) as [a|] eqn:E.
+  - exists a. split; [reflexivity|]. rewrite (inv_conv s I id a E). now apply N.ltb_lt.
+  - exfalso. pose proof (inv_len s I) as L.
+    destruct (In_nth_errN (m_attrs s)) with (x := hd (Imattr [] 0 false false []) (m_attrs s)) as [k Hk].
+    + destruct (m_attrs s); [cbn in L; lia|now left].
+    + clear Hk. assert (X : id < lenN (m_attrs s)) by lia. revert X E. generalize (m_attrs s). clear.
+      intros l. revert id. induction l as [|x l IH]; intros id X E; [cbn in X; lia|].
+      cbn [nth_errN] in E. destruct (N.eqb_spec id 0); [discriminate|].
+      apply (IH (N.pred id)); [|assumption]. unfold lenN in *. cbn [length] in X. lia.
 Qed.
